@@ -377,7 +377,7 @@ def gen_exact_cases(rng, quick):
         if m is None:
             continue
         n = len(j)
-        idx = rng.permutation(len(cfgs))[: (3 if quick else 6)]
+        idx = rng.permutation(len(cfgs))[: (2 if quick else 6)]
         for i in sorted(idx):
             kw = dict(cfgs[i])
             mx = kw["maxiter"]
